@@ -60,6 +60,12 @@ def mk_case(vs, cap, name=b"+RT"):
 
 
 def gen(d, tier):
+    if d.unlikely(1, 4):
+        return gen_history(d, tier)
+    return gen_plain(d, tier)
+
+
+def gen_plain(d, tier):
     n = d.weighted([(3, 1), (3, 2), (2, 3), (1, 4), (1, 5)])
     vs = []
     for _ in range(n):
@@ -82,36 +88,81 @@ def gen(d, tier):
     return dict(cmd=probe, cap=max(6, cap))
 
 
+def g_pre(d, cap):
+    """session history in front of the round trip: requests on ANOTHER command (+P) that fail part-way - a READ whose text
+    outgrows the buffer inside a long variable, a WRITE rejected after many good bytes - or succeed.  What READ prints must
+    still be what WRITE accepts afterwards: neither may depend on what the parser did before."""
+    big = max(1, d.pick([cap // 2 - 3, cap // 2, cap // 2 + 2, cap, 17, 33, 34, 40, 48, 64]))
+    vs = [S.mk_var(BHEX, big, RW, d.bytes(big))]
+    if d.below(3) == 0:
+        vs.insert(d.below(2), S.mk_var(d.pick([INT, STR, BHEX]), 4, RW, b"a\0\0\0"))
+    pc = S.mk_cmd(b"+P", "", vs)
+    lines = []
+    for _ in range(d.rng(1, 3)):
+        k = d.below(6)
+        if k <= 1:
+            lines.append(b"AT+P?")
+        elif k == 2:
+            lines.append(b"AT+P=?")
+        else:
+            good = d.bytes(big)
+            n = min(big, d.pick([15, 16, 17, 31, 32, 33, 34, big - 1, big, big]))
+            txt = good[:n].hex().upper().encode() + d.pick([b"", b"G", b"0", b"00", b"0000", b",", b",1", b"\""])
+            if len(vs) == 2 and vs[0]["size"] == 4:
+                txt = (b"1," if vs[0]["type"] == INT else (b"\"a\"," if vs[0]["type"] == STR else b"00,")) + txt
+            lines.append(b"AT+P=" + txt)
+    return dict(cmd=pc, lines=lines)
+
+
+def gen_history(d, tier):
+    case = gen_plain(d, tier)
+    c = case["cmd"]
+    if d.below(2):
+        sz = d.rng(17, 44)
+        c["vars"][d.below(len(c["vars"]))] = S.mk_var(BHEX, sz, RW, d.bytes(sz))
+    full = ref.Model(S.mk_spec([S.clone(c)], bufsz=16000)).read_text([], 0, 8000)
+    L = len(full[0]) if full else 40
+    case["cap"] = max(case["cap"], L + 1 + d.pick([0, 1, 8, 40]), d.pick([48, 64, 80, 100, 128, 200]))
+    case["pre"] = g_pre(d, case["cap"])
+    return case
+
+
 def run(case, W):
     c = case["cmd"]
     cap = case["cap"]
-    s1 = S.mk_spec([S.clone(c)], input=b"AT" + c["name"] + b"?\n", shared=False, bufsz=cap, ubufsz=8)
+    pre = case.get("pre")
+    extra = [S.clone(pre["cmd"])] if pre else []
+    hist = b"".join(l + b"\n" for l in pre["lines"]) if pre else b""
+    npre = len(pre["lines"]) if pre else 0
+    s1 = S.mk_spec([S.clone(c)] + extra, input=hist + b"AT" + c["name"] + b"?\n", shared=False, bufsz=cap, ubufsz=8)
     t1 = W.run(s1, "plain")
     if not t1.ok:
         return Result(violation=("crash", str(t1.crash)))
     if t1.reason != "quiescent":
         return Result(violation=("no-quiescence", t1.reason))
-    units, rest = split_units(t1.out)
+    out1 = t1.out_by_line(npre + 1)[npre + 1]      # the answer to the last line (nothing of it is sent before its LF is read)
+    units, rest = split_units(out1)
     full = ref.Model(S.mk_spec([S.clone(c)], bufsz=16000)).read_text([], 0, 8000)
     fits = full is not None and len(full[0]) < cap
-    if not fits and t1.out == b"\nERROR\n":
+    if not fits and out1 == b"\nERROR\n":
         return Result(labels=["read-does-not-fit"], nontrivial=False)
     if rest or len(units) != 2 or units[1][1] != b"OK" or not units[0][1].startswith(c["name"] + b"="):
         # a READ that does not fit the capacity is an ERROR: nothing to feed back (cap is chosen to fit, so this is unexpected)
-        return Result(violation=("read-failed", "READ of a command whose text fits capacity %d answered %r" % (cap, t1.out)))
+        return Result(violation=("read-failed", "READ of a command whose text fits capacity %d answered %r%s" % (cap, out1, (" after the lines %r" % (pre["lines"],)) if pre else "")))
     payload = units[0][1][len(c["name"]) + 1:]
-    before = t1.final_vars()
+    before = {k: v for k, v in t1.final_vars().items() if k[0] == 0}
     init = {(0, k): (v["init"] + bytes(v["size"]))[:v["size"]] for k, v in enumerate(c["vars"])}
     if before != init:
         return Result(violation=("read-modified", "READ changed variable storage: %r -> %r" % (init, before)))
-    s2 = S.mk_spec([S.clone(c)], input=b"AT" + c["name"] + b"=" + payload + b"\n", shared=False, bufsz=cap, ubufsz=8)
+    s2 = S.mk_spec([S.clone(c)] + extra, input=hist + b"AT" + c["name"] + b"=" + payload + b"\n", shared=False, bufsz=cap, ubufsz=8)
     t2 = W.run(s2, "plain")
     if not t2.ok:
         return Result(violation=("crash", str(t2.crash)), runs=2)
     if t2.reason != "quiescent":
         return Result(violation=("no-quiescence", t2.reason), runs=2)
-    if t2.out != b"\nOK\n":
-        return Result(violation=("write-rejected", "READ printed %r but WRITE of that text answered %r" % (payload, t2.out)), runs=2)
+    out2 = t2.out_by_line(npre + 1)[npre + 1]
+    if out2 != b"\nOK\n":
+        return Result(violation=("write-rejected", "READ printed %r but WRITE of that text answered %r%s" % (payload, out2, (" after the lines %r" % (pre["lines"],)) if pre else "")), runs=2)
     after = t2.final_vars()
     for k, v in enumerate(c["vars"]):
         if after[(0, k)] != init[(0, k)]:
@@ -142,6 +193,10 @@ def run(case, W):
             labels.add("has-read-only")
     if cap - (len(payload) + len(c["name"]) + 1) <= 2:
         labels.add("capacity-just-fits")
+    if pre:
+        labels.add("with-session-history")
+        if b"ERROR" in b"".join(t1.out_by_line(npre + 1)[:npre + 1]):
+            labels.add("history-has-failed-request")
     return Result(labels=sorted(labels), nontrivial=nt, runs=2)
 
 
